@@ -828,7 +828,8 @@ def main(tier, replay=None):
         lat = shrink_real(item["lattice"], item["beam"], item["except_for"], item["failure"]["op"], item["failure"]["what"])
         st, fails = real_check(lat, item["beam"], item["except_for"], ops=(item["failure"]["op"],))
         run.violation({"kind": "real_lattice", "lattice": lat, "beam": item["beam"], "except_for": item["except_for"], "op": item["failure"]["op"],
-                       "failures": fails, "relation": "transformed segment tracks like the original (rtol 1e-9), same length, excepted elements kept"})
+                       "failures": fails, "relation": "transformed segment tracks like the original (rtol 1e-9, entry-wise and with the same batch shape in vectorised "
+                       "settings), same length, excepted elements kept, no merge across / drift replacement of an element that changes the beam energy in any batch entry"})
     elif failing or table_fail:
         if failing:
             tree, beam, ex, obs = cases[failing[0]]
